@@ -1047,3 +1047,472 @@ Proof.
     + eapply lib_wf_pos; eassumption.
     + eapply lib_wf_pos; [apply lrd_wf; exact W|exact D].
 Qed.
+
+Lemma Forall2_comp {A B C} (R1 : A -> B -> Prop) (R2 : B -> C -> Prop) a : forall b c,
+  Forall2 R1 a b -> Forall2 R2 b c -> Forall2 (fun x z => exists y, R1 x y /\ R2 y z) a c.
+Proof.
+  induction a as [|x a IH]; intros b c F1 F2; inversion F1; subst; inversion F2; subst; constructor.
+  - eexists. split; eassumption.
+  - eapply IH; eassumption.
+Qed.
+
+Lemma Forall2_impl {A B} (R R' : A -> B -> Prop) a b : (forall x y, R x y -> R' x y) -> Forall2 R a b -> Forall2 R' a b.
+Proof. intros H F. induction F; constructor; auto. Qed.
+
+Section SeqDedup.
+Variables r1 r2 r3 r4 : key -> key.
+Notation lrd := (lib_remove_duplicates key_eqb).
+
+Definition is_g (c : core) (id : Z) : bool :=
+  match lib_type (grad_l c) id with Some t => t =? tag_g | None => false end.
+
+(* every 'g' gradient row and every RF row refers to existing shape ids (0 = no time shape), every
+   gradient is typed 't' or 'g', every block entry is 0 or an existing library id *)
+Definition grad_row_ok (c : core) (p : Z * key) : Prop :=
+  lib_type (grad_l c) (fst p) = Some tag_t \/
+  (lib_type (grad_l c) (fst p) = Some tag_g /\
+   exists a s1 s2 rest, snd p = a :: s1 :: s2 :: rest /\ has (shape_l c) (qz s1) /\ has (shape_l c) (qz s2)).
+Definition rf_row_ok (c : core) (p : Z * key) : Prop :=
+  exists a s1 s2 s3 rest, snd p = a :: s1 :: s2 :: s3 :: rest /\
+    has (shape_l c) (qz s1) /\ has (shape_l c) (qz s2) /\ has (shape_l c) (qz s3).
+Definition blk_ok (c : core) (p : Z * list Z) : Prop :=
+  has (rf_l c) (nth 1 (snd p) 0) /\ has (grad_l c) (nth 2 (snd p) 0) /\ has (grad_l c) (nth 3 (snd p) 0) /\
+  has (grad_l c) (nth 4 (snd p) 0) /\ has (adc_l c) (nth 5 (snd p) 0).
+Definition RefsExist (c : core) : Prop :=
+  Forall (grad_row_ok c) (ldata (grad_l c)) /\ Forall (rf_row_ok c) (ldata (rf_l c)) /\ Forall (blk_ok c) (blocks c).
+(* ids are unique positive dict keys, the empty type tag is never stored *)
+Definition StoreWf (c : core) : Prop :=
+  lib_wf (shape_l c) /\ lib_wf (grad_l c) /\ lib_wf (rf_l c) /\ lib_wf (adc_l c).
+
+(* the intermediate values of Sequence.remove_duplicates *)
+Definition d_sl c := fst (lrd r1 (shape_l c)).
+Definition d_smap c := snd (lrd r1 (shape_l c)).
+Definition d_gl1 c := match remap_rows (ldata (grad_l c)) (grad_l c) (is_g c) (remap_grad_row (d_smap c)) with
+                      | Some l => l | None => grad_l c end.
+Definition d_rl1 c := match remap_rows (ldata (rf_l c)) (rf_l c) (fun _ => true) (remap_rf_row (d_smap c)) with
+                      | Some l => l | None => rf_l c end.
+Definition d_gl2 c := fst (lrd r2 (d_gl1 c)).
+Definition d_gmap c := snd (lrd r2 (d_gl1 c)).
+Definition d_rl2 c := fst (lrd r3 (d_rl1 c)).
+Definition d_rmap c := snd (lrd r3 (d_rl1 c)).
+Definition d_al2 c := fst (lrd r4 (adc_l c)).
+Definition d_amap c := snd (lrd r4 (adc_l c)).
+
+Definition smap_rel c (z m : Z) : Prop :=
+  (z = 0 /\ m = 0) \/
+  (exists k, lib_get (shape_l c) z = Some k /\ lib_get (d_sl c) m = Some (r1 k) /\ 0 < z /\ 0 < m).
+
+Lemma map_atom_has c s : lib_wf (shape_l c) -> has (shape_l c) (qz s) ->
+  exists m, map_atom (d_smap c) s = Some (zq m) /\ smap_rel c (qz s) m.
+Proof.
+  intros W H. destruct (map_has r1 (shape_l c) (qz s) W H) as (m & M & R).
+  exists m. split; [unfold map_atom, map_id, d_smap; rewrite M; reflexivity|exact R].
+Qed.
+
+Lemma wf_rows (l : klib) : lib_wf l ->
+  NoDup (map fst (ldata l)) /\ ~ In 0 (map fst (ldata l)) /\ (forall id d, In (id, d) (ldata l) -> lib_get l id = Some d).
+Proof.
+  intros (N & P & _). split; [exact N|]. split.
+  - intro X. rewrite Forall_forall in P. specialize (P 0 X). lia.
+  - intros id d H. apply agetZ_In_nodup; assumption.
+Qed.
+
+Lemma gl1_spec c : StoreWf c -> RefsExist c ->
+  remap_rows (ldata (grad_l c)) (grad_l c) (is_g c) (remap_grad_row (d_smap c)) = Some (d_gl1 c) /\
+  akeys (ldata (d_gl1 c)) = akeys (ldata (grad_l c)) /\ ltype (d_gl1 c) = ltype (grad_l c) /\
+  (forall id, lib_get (grad_l c) id = None -> lib_get (d_gl1 c) id = None) /\
+  (forall id d, lib_get (grad_l c) id = Some d ->
+     (lib_type (grad_l c) id = Some tag_t /\ lib_get (d_gl1 c) id = Some d) \/
+     (lib_type (grad_l c) id = Some tag_g /\ exists a s1 s2 rest m1 m2,
+        d = a :: s1 :: s2 :: rest /\ remap_grad_row (d_smap c) d = Some (a :: zq m1 :: zq m2 :: rest) /\
+        lib_get (d_gl1 c) id = Some (a :: zq m1 :: zq m2 :: rest) /\
+        smap_rel c (qz s1) m1 /\ smap_rel c (qz s2) m2)).
+Proof.
+  intros (Ws & Wg & _ & _) (Rg & _ & _). rewrite Forall_forall in Rg.
+  destruct (wf_rows _ Wg) as (N & Z0 & Hin).
+  assert (Hrow : forall id d, In (id, d) (ldata (grad_l c)) ->
+     (lib_type (grad_l c) id = Some tag_t /\ row_after (is_g c) (remap_grad_row (d_smap c)) id d = Some d) \/
+     (lib_type (grad_l c) id = Some tag_g /\ exists a s1 s2 rest m1 m2,
+        d = a :: s1 :: s2 :: rest /\ remap_grad_row (d_smap c) d = Some (a :: zq m1 :: zq m2 :: rest) /\
+        row_after (is_g c) (remap_grad_row (d_smap c)) id d = Some (a :: zq m1 :: zq m2 :: rest) /\
+        smap_rel c (qz s1) m1 /\ smap_rel c (qz s2) m2)).
+  { intros id d H. destruct (Rg _ H) as [T|(T & a & s1 & s2 & rest & E & H1 & H2)]; cbn [fst snd] in *.
+    - left. split; [exact T|]. unfold row_after, is_g. rewrite T. reflexivity.
+    - right. split; [exact T|].
+      destruct (map_atom_has c s1 Ws H1) as (m1 & M1 & R1). destruct (map_atom_has c s2 Ws H2) as (m2 & M2 & R2).
+      exists a, s1, s2, rest, m1, m2. subst d.
+      assert (X : remap_grad_row (d_smap c) (a :: s1 :: s2 :: rest) = Some (a :: zq m1 :: zq m2 :: rest)).
+      { cbn [remap_grad_row]. rewrite M1, M2. reflexivity. }
+      repeat split; try assumption. unfold row_after, is_g. rewrite T. cbn. exact X. }
+  destruct (remap_rows_spec (is_g c) (remap_grad_row (d_smap c)) (ldata (grad_l c)) (grad_l c) N Z0 Hin) as (l' & E & K & T & G).
+  { intros id d H. destruct (Hrow id d H) as [[_ X]|(_ & a & s1 & s2 & rest & m1 & m2 & _ & _ & X & _)]; rewrite X; discriminate. }
+  unfold d_gl1. rewrite E. repeat split; try assumption.
+  - intros id H. rewrite G. fold (lib_get (grad_l c) id). rewrite H. reflexivity.
+  - intros id d H. pose proof (G id) as Gi. fold (lib_get (grad_l c) id) in Gi. rewrite H in Gi.
+    apply agetZ_In in H.
+    destruct (Hrow id d H) as [[T1 X]|(T1 & a & s1 & s2 & rest & m1 & m2 & E1 & E2 & X & R1 & R2)].
+    + left. split; [exact T1|congruence].
+    + right. split; [exact T1|]. exists a, s1, s2, rest, m1, m2. repeat split; try assumption. congruence.
+Qed.
+
+Lemma rl1_spec c : StoreWf c -> RefsExist c ->
+  remap_rows (ldata (rf_l c)) (rf_l c) (fun _ => true) (remap_rf_row (d_smap c)) = Some (d_rl1 c) /\
+  akeys (ldata (d_rl1 c)) = akeys (ldata (rf_l c)) /\ ltype (d_rl1 c) = ltype (rf_l c) /\
+  (forall id, lib_get (rf_l c) id = None -> lib_get (d_rl1 c) id = None) /\
+  (forall id d, lib_get (rf_l c) id = Some d ->
+     exists a s1 s2 s3 rest m1 m2 m3,
+        d = a :: s1 :: s2 :: s3 :: rest /\
+        remap_rf_row (d_smap c) d = Some (a :: zq m1 :: zq m2 :: zq m3 :: rest) /\
+        lib_get (d_rl1 c) id = Some (a :: zq m1 :: zq m2 :: zq m3 :: rest) /\
+        smap_rel c (qz s1) m1 /\ smap_rel c (qz s2) m2 /\ smap_rel c (qz s3) m3).
+Proof.
+  intros (Ws & _ & Wr & _) (_ & Rr & _). rewrite Forall_forall in Rr.
+  destruct (wf_rows _ Wr) as (N & Z0 & Hin).
+  assert (Hrow : forall id d, In (id, d) (ldata (rf_l c)) ->
+     exists a s1 s2 s3 rest m1 m2 m3,
+        d = a :: s1 :: s2 :: s3 :: rest /\
+        remap_rf_row (d_smap c) d = Some (a :: zq m1 :: zq m2 :: zq m3 :: rest) /\
+        smap_rel c (qz s1) m1 /\ smap_rel c (qz s2) m2 /\ smap_rel c (qz s3) m3).
+  { intros id d H. destruct (Rr _ H) as (a & s1 & s2 & s3 & rest & E & H1 & H2 & H3). cbn [snd] in E.
+    destruct (map_atom_has c s1 Ws H1) as (m1 & M1 & R1). destruct (map_atom_has c s2 Ws H2) as (m2 & M2 & R2).
+    destruct (map_atom_has c s3 Ws H3) as (m3 & M3 & R3).
+    exists a, s1, s2, s3, rest, m1, m2, m3. subst d. repeat split; try assumption.
+    cbn [remap_rf_row]. rewrite M1, M2, M3. reflexivity. }
+  destruct (remap_rows_spec (fun _ => true) (remap_rf_row (d_smap c)) (ldata (rf_l c)) (rf_l c) N Z0 Hin) as (l' & E & K & T & G).
+  { intros id d H. destruct (Hrow id d H) as (a & s1 & s2 & s3 & rest & m1 & m2 & m3 & _ & X & _).
+    unfold row_after. rewrite X. discriminate. }
+  unfold d_rl1. rewrite E. repeat split; try assumption.
+  - intros id H. rewrite G. fold (lib_get (rf_l c) id). rewrite H. reflexivity.
+  - intros id d H. pose proof (G id) as Gi. fold (lib_get (rf_l c) id) in Gi. rewrite H in Gi.
+    apply agetZ_In in H.
+    destruct (Hrow id d H) as (a & s1 & s2 & s3 & rest & m1 & m2 & m3 & E1 & X & R1 & R2 & R3).
+    exists a, s1, s2, s3, rest, m1, m2, m3. repeat split; try assumption. unfold row_after in Gi. congruence.
+Qed.
+
+Lemma wf_same_keys (l l' : klib) : akeys (ldata l') = akeys (ldata l) -> ltype l' = ltype l -> lib_wf l -> lib_wf l'.
+Proof. intros K T (A & B & C). unfold lib_wf. rewrite K, T. repeat split; assumption. Qed.
+
+Lemma gl1_wf c : StoreWf c -> RefsExist c -> lib_wf (d_gl1 c).
+Proof. intros W R. destruct (gl1_spec c W R) as (_ & K & T & _). eapply wf_same_keys; [exact K|exact T|apply W]. Qed.
+Lemma rl1_wf c : StoreWf c -> RefsExist c -> lib_wf (d_rl1 c).
+Proof. intros W R. destruct (rl1_spec c W R) as (_ & K & T & _). eapply wf_same_keys; [exact K|exact T|apply W]. Qed.
+
+Lemma has_gl1 c z : StoreWf c -> RefsExist c -> has (grad_l c) z -> has (d_gl1 c) z.
+Proof.
+  intros W R [->|H]; [left; reflexivity|right]. destruct (lib_get (grad_l c) z) as [d|] eqn:E; [|congruence].
+  destruct (gl1_spec c W R) as (_ & _ & _ & _ & G).
+  destruct (G z d E) as [[_ X]|(_ & a & s1 & s2 & rest & m1 & m2 & _ & _ & X & _)]; congruence.
+Qed.
+Lemma has_rl1 c z : StoreWf c -> RefsExist c -> has (rf_l c) z -> has (d_rl1 c) z.
+Proof.
+  intros W R [->|H]; [left; reflexivity|right]. destruct (lib_get (rf_l c) z) as [d|] eqn:E; [|congruence].
+  destruct (rl1_spec c W R) as (_ & _ & _ & _ & G).
+  destruct (G z d E) as (a & s1 & s2 & s3 & rest & m1 & m2 & m3 & _ & _ & X & _). congruence.
+Qed.
+
+(* what happens to one row of the block table *)
+Definition colmap c (n : nat) (z : Z) : Z :=
+  match n with
+  | 1%nat => mapval (d_rmap c) z
+  | 2%nat | 3%nat | 4%nat => mapval (d_gmap c) z
+  | 5%nat => mapval (d_amap c) z
+  | _ => z
+  end.
+Definition ev_fin c (ev ev' : list Z) : Prop := forall n, nth n ev' 0 = colmap c n (nth n ev 0).
+
+Lemma map_zero (rnd : key -> key) (l : klib) : lib_wf l -> aget Z.eqb (snd (lrd rnd l)) 0 = Some 0.
+Proof. intro W. apply (dedup_map_zero key key_eqb key_eqb_spec); [apply W|apply lib_wf_zero; exact W]. Qed.
+
+Lemma map_has_ne (rnd : key -> key) (l : klib) z : lib_wf l -> has l z -> aget Z.eqb (snd (lrd rnd l)) z <> None.
+Proof. intros W H. destruct (map_has rnd l z W H) as (m & M & _). congruence. Qed.
+
+Lemma dedup_core_spec c : StoreWf c -> RefsExist c ->
+  exists b3, dedup_core r1 r2 r3 r4 c =
+    Some (c <| shape_l := d_sl c |> <| grad_l := d_gl2 c |> <| rf_l := d_rl2 c |> <| adc_l := d_al2 c |> <| blocks := b3 |>) /\
+    Forall2 (fun p p' => fst p' = fst p /\ ev_fin c (snd p) (snd p')) (blocks c) b3.
+Proof.
+  intros W R. pose proof W as (Ws & Wg & Wr & Wa). pose proof R as (_ & _ & Rb). rewrite Forall_forall in Rb.
+  destruct (gl1_spec c W R) as (Eg & _). destruct (rl1_spec c W R) as (Er & _).
+  pose proof (gl1_wf c W R) as Wg1. pose proof (rl1_wf c W R) as Wr1.
+  destruct (remap_blocks_spec (d_gmap c) [2; 3; 4]%nat (map_zero r2 _ Wg1)) with (bl := blocks c) as (b1 & E1 & F1).
+  { repeat constructor; cbn; intuition lia. }
+  { intros b ev H ix Hix. apply map_has_ne; [exact Wg1|]. apply has_gl1; [exact W|exact R|].
+    destruct (Rb _ H) as (_ & H2 & H3 & H4 & _). cbn [snd] in *.
+    destruct Hix as [<-|[<-|[<-|[]]]]; assumption. }
+  assert (P1 : forall b ev1, In (b, ev1) b1 -> exists ev, In (b, ev) (blocks c) /\ ev_rel [2; 3; 4]%nat (d_gmap c) ev ev1).
+  { intros b ev1 H. destruct (Forall2_In_l _ _ _ _ F1 H) as ([b' ev] & Hx & E & Rx). cbn [fst snd] in *. subst b'.
+    exists ev. split; assumption. }
+  destruct (remap_blocks_spec (d_rmap c) [1]%nat (map_zero r3 _ Wr1)) with (bl := b1) as (b2 & E2 & F2).
+  { repeat constructor. cbn. tauto. }
+  { intros b ev1 H ix Hix. destruct Hix as [<-|[]]. destruct (P1 _ _ H) as (ev & Hev & Rv).
+    rewrite (Rv 1%nat). cbn [existsb Nat.eqb orb]. apply map_has_ne; [exact Wr1|]. apply has_rl1; [exact W|exact R|].
+    destruct (Rb _ Hev) as (H1 & _). exact H1. }
+  assert (P2 : forall b ev2, In (b, ev2) b2 -> exists ev, In (b, ev) (blocks c) /\ nth 5 ev2 0 = nth 5 ev 0).
+  { intros b ev2 H. destruct (Forall2_In_l _ _ _ _ F2 H) as ([b' ev1] & Hx & E & Rx). cbn [fst snd] in *. subst b'.
+    destruct (P1 _ _ Hx) as (ev & Hev & Rv). exists ev. split; [exact Hev|].
+    rewrite (Rx 5%nat), (Rv 5%nat). reflexivity. }
+  destruct (remap_blocks_spec (d_amap c) [5]%nat (map_zero r4 _ Wa)) with (bl := b2) as (b3 & E3 & F3).
+  { repeat constructor. cbn. tauto. }
+  { intros b ev2 H ix Hix. destruct Hix as [<-|[]]. destruct (P2 _ _ H) as (ev & Hev & E5). rewrite E5.
+    apply map_has_ne; [exact Wa|]. destruct (Rb _ Hev) as (_ & _ & _ & _ & H5). exact H5. }
+  exists b3. split.
+  - unfold dedup_core.
+    rewrite (surjective_pairing (lrd r1 (shape_l c))). fold (d_sl c) (d_smap c).
+    unfold is_g in Eg. rewrite Eg. cbn [opt_bind]. rewrite Er. cbn [opt_bind].
+    rewrite (surjective_pairing (lrd r2 (d_gl1 c))). fold (d_gl2 c) (d_gmap c). rewrite E1. cbn [opt_bind].
+    rewrite (surjective_pairing (lrd r3 (d_rl1 c))). fold (d_rl2 c) (d_rmap c). rewrite E2. cbn [opt_bind].
+    rewrite (surjective_pairing (lrd r4 (adc_l c))). fold (d_al2 c) (d_amap c). rewrite E3. cbn [opt_bind].
+    reflexivity.
+  - pose proof (Forall2_comp _ _ _ _ _ (Forall2_comp _ _ _ _ _ F1 F2) F3) as F.
+    eapply Forall2_impl; [|exact F].
+    intros [b ev] [b' ev3] ([bb ev2] & ([ba ev1] & [A1 A2] & [B1 B2]) & [C1 C2]). cbn [fst snd] in *.
+    split; [congruence|]. intro n. rewrite (C2 n), (B2 n), (A2 n).
+    do 6 (destruct n as [|n]; [reflexivity|]). reflexivity.
+Qed.
+
+(* ---- decoding after duplicate removal ------------------------------------------------------------------------ *)
+(* merged rows carry the same type tag (needed: the tag of a class is that of its first member) *)
+Definition tags_agree (rnd : key -> key) (l : klib) : Prop :=
+  forall i1 i2 k1 k2, lib_get l i1 = Some k1 -> lib_get l i2 = Some k2 -> rnd k1 = rnd k2 -> lib_type l i1 = lib_type l i2.
+Definition TagsAgree (c : core) : Prop := tags_agree r2 (d_gl1 c) /\ tags_agree r3 (d_rl1 c).
+(* the rounding leaves integer shape-id columns alone *)
+Definition KeepIds2 : Prop := forall a m1 m2 rest, exists a' s1' s2' rest',
+  r2 (a :: zq m1 :: zq m2 :: rest) = a' :: s1' :: s2' :: rest' /\ qz s1' = m1 /\ qz s2' = m2.
+Definition KeepIds3 : Prop := forall a m1 m2 m3 rest, exists a' s1' s2' s3' rest',
+  r3 (a :: zq m1 :: zq m2 :: zq m3 :: rest) = a' :: s1' :: s2' :: s3' :: rest' /\ qz s1' = m1 /\ qz s2' = m2 /\ qz s3' = m3.
+
+Definition rm_grad c (ty : Z) (d : key) : key :=
+  if ty =? tag_g then match remap_grad_row (d_smap c) d with Some nd => nd | None => d end else d.
+Definition rm_rf c (d : key) : key := match remap_rf_row (d_smap c) d with Some nd => nd | None => d end.
+Definition rd_grad c (g : dgrad) : dgrad :=
+  mkDGrad (dg_type g) (r2 (rm_grad c (dg_type g) (dg_data g))) (map r1 (dg_shapes g)).
+Definition rd_rf c (x : key * Z * list key) : key * Z * list key :=
+  let '(d, u, shs) := x in (r3 (rm_rf c d), u, map r1 shs).
+(* a decoded block with every library row replaced by its rounded row (shape ids renumbered) and
+   every shape payload by its rounded payload; duration and extensions untouched *)
+Definition round_dblock c (b : dblock) : dblock :=
+  mkDBlock (d_dur b) (option_map (rd_rf c) (d_rf b)) (map (option_map (rd_grad c)) (d_g b))
+           (option_map r4 (d_adc b)) (d_ext b).
+
+Lemma new_lookup (rnd : key -> key) (l : klib) id d :
+  lib_wf l -> tags_agree rnd l -> lib_get l id = Some d ->
+  exists j, mapval (snd (lrd rnd l)) id = j /\ 0 < j /\ lib_get (fst (lrd rnd l)) j = Some (rnd d) /\
+            lib_type (fst (lrd rnd l)) j = lib_type l id.
+Proof.
+  intros W T H.
+  destruct (dedup_data_is_rounded key key_eqb key_eqb_spec rnd l (proj1 W) id d H) as (j & M & D).
+  exists j. split; [unfold mapval; rewrite M; reflexivity|]. split; [eapply lib_wf_pos; [apply lrd_wf; exact W|exact D]|].
+  split; [exact D|].
+  destruct (dedup_onto key key_eqb key_eqb_spec rnd l (proj1 W) j _ D) as (i0 & k0 & [G0 _] & _ & R & Ty).
+  rewrite Ty, (lib_wf_tag l i0 W). apply (T i0 id k0 d G0 H). congruence.
+Qed.
+
+Lemma shape_after c c' z m k : lib_wf (shape_l c) -> shape_l c' = d_sl c ->
+  smap_rel c z m -> get_shape c z = Some k -> get_shape c' m = Some (r1 k) /\ 0 < z /\ 0 < m.
+Proof.
+  intros W E [[-> ->]|(k' & G & D & Pz & Pm)] H; unfold get_shape in *.
+  - rewrite (lib_wf_zero _ W) in H. discriminate.
+  - rewrite E. rewrite G in H. inversion H. subst. repeat split; assumption.
+Qed.
+
+Lemma dec_adc_dedup c c' id x : StoreWf c -> adc_l c' = d_al2 c -> has (adc_l c) id ->
+  dec_adc c id = Some x -> dec_adc c' (mapval (d_amap c) id) = Some (option_map r4 x).
+Proof.
+  intros (_ & _ & _ & W) E H D. destruct (map_has r4 (adc_l c) id W H) as (m & M & [[-> ->]|(k & G & N & Pz & Pm)]);
+    unfold mapval, d_amap; rewrite M.
+  - cbn in D. inversion D. reflexivity.
+  - unfold dec_adc in *. assert (L1 : id <=? 0 = false) by (apply Z.leb_gt; lia).
+    assert (L2 : m <=? 0 = false) by (apply Z.leb_gt; lia). rewrite L1 in D. rewrite L2. rewrite G in D. cbn in D.
+    inversion D. rewrite E. unfold d_al2. rewrite N. reflexivity.
+Qed.
+
+Lemma lib_type_same (l l' : klib) id : ltype l' = ltype l -> lib_type l' id = lib_type l id.
+Proof. intro H. unfold lib_type. rewrite H. reflexivity. Qed.
+
+Lemma dec_grad_dedup c c' id x : StoreWf c -> RefsExist c -> KeepIds2 -> tags_agree r2 (d_gl1 c) ->
+  grad_l c' = d_gl2 c -> shape_l c' = d_sl c -> has (grad_l c) id ->
+  dec_grad c id = Some x -> dec_grad c' (mapval (d_gmap c) id) = Some (option_map (rd_grad c) x).
+Proof.
+  intros W R KI TA Eg Es H D. pose proof W as (Ws & Wg & _ & _).
+  pose proof (gl1_wf c W R) as Wg1. destruct (gl1_spec c W R) as (_ & _ & LT & _ & G).
+  destruct H as [->|H].
+  - unfold mapval, d_gmap. rewrite (map_zero r2 _ Wg1). cbn in D. inversion D. reflexivity.
+  - destruct (lib_get (grad_l c) id) as [d|] eqn:Ed; [|congruence].
+    assert (Pid : 0 < id) by (apply (lib_wf_pos _ _ _ Wg Ed)).
+    assert (L1 : id <=? 0 = false) by (apply Z.leb_gt; lia).
+    unfold dec_grad in D. rewrite L1, Ed in D.
+    destruct (G id d Ed) as [[Ty G1]|(Ty & a & s1 & s2 & rest & m1 & m2 & E1 & E2 & G1 & R1 & R2)];
+      rewrite Ty in D; cbn [opt_bind] in D;
+      destruct (new_lookup r2 (d_gl1 c) id _ Wg1 TA G1) as (j & Mj & Pj & Dj & Tj);
+      fold (d_gmap c) in Mj; fold (d_gl2 c) in Dj, Tj; rewrite Mj;
+      assert (L2 : j <=? 0 = false) by (apply Z.leb_gt; lia);
+      rewrite (lib_type_same _ _ id LT), Ty in Tj;
+      unfold dec_grad; rewrite L2, Eg, Tj, Dj; cbn [opt_bind].
+    + change (tag_t =? tag_t) with true in *. cbv iota in D |- *. inversion D. cbn [option_map]. unfold rd_grad, rm_grad. cbn. reflexivity.
+    + change (tag_g =? tag_t) with false in *. cbv iota in D |- *. subst d.
+      destruct (KI a m1 m2 rest) as (a' & s1' & s2' & rest' & EK & K1 & K2). rewrite EK.
+      change (knth (a' :: s1' :: s2' :: rest') 1) with s1'. change (knth (a' :: s1' :: s2' :: rest') 2) with s2'.
+      rewrite K1, K2. rewrite <- EK.
+      change (knth (a :: s1 :: s2 :: rest) 1) with s1 in D. change (knth (a :: s1 :: s2 :: rest) 2) with s2 in D.
+      destruct (get_shape c (qz s1)) as [ws|] eqn:S1; cbn [opt_bind] in D; [|discriminate].
+      destruct (shape_after c c' _ _ _ Ws Es R1 S1) as (S1' & _ & _). rewrite S1'. cbn [opt_bind].
+      assert (RM : rm_grad c tag_g (a :: s1 :: s2 :: rest) = a :: zq m1 :: zq m2 :: rest).
+      { unfold rm_grad. change (tag_g =? tag_g) with true. cbv iota. rewrite E2. reflexivity. }
+      destruct R2 as [[Z2 ->]|(k2 & G2 & D2 & P2 & Pm2)].
+      * rewrite Z2 in D. cbn in D. inversion D. cbn [option_map]. unfold rd_grad. cbn [dg_type dg_data dg_shapes map].
+        rewrite RM. reflexivity.
+      * assert (N2 : qz s2 =? 0 = false) by (apply Z.eqb_neq; lia). assert (N2' : m2 =? 0 = false) by (apply Z.eqb_neq; lia).
+        rewrite N2 in D. rewrite N2'. unfold get_shape in D |- *. rewrite G2 in D. cbn [opt_bind] in D. inversion D.
+        rewrite Es, D2. cbn [opt_bind option_map]. unfold rd_grad. cbn [dg_type dg_data dg_shapes map]. rewrite RM. reflexivity.
+Qed.
+
+Lemma dec_rf_dedup c c' id x : StoreWf c -> RefsExist c -> KeepIds3 -> tags_agree r3 (d_rl1 c) ->
+  rf_l c' = d_rl2 c -> shape_l c' = d_sl c -> has (rf_l c) id ->
+  dec_rf c id = Some x -> dec_rf c' (mapval (d_rmap c) id) = Some (option_map (rd_rf c) x).
+Proof.
+  intros W R KI TA Er Es H D. pose proof W as (Ws & _ & Wr & _).
+  pose proof (rl1_wf c W R) as Wr1. destruct (rl1_spec c W R) as (_ & _ & LT & _ & G).
+  destruct H as [->|H].
+  - unfold mapval, d_rmap. rewrite (map_zero r3 _ Wr1). cbn in D. inversion D. reflexivity.
+  - destruct (lib_get (rf_l c) id) as [d|] eqn:Ed; [|congruence].
+    assert (Pid : 0 < id) by (apply (lib_wf_pos _ _ _ Wr Ed)).
+    assert (L1 : id <=? 0 = false) by (apply Z.leb_gt; lia).
+    unfold dec_rf in D. rewrite L1, Ed in D. cbn [opt_bind] in D. cbv zeta in D.
+    destruct (G id d Ed) as (a & s1 & s2 & s3 & rest & m1 & m2 & m3 & E1 & E2 & G1 & R1 & R2 & R3).
+    destruct (new_lookup r3 (d_rl1 c) id _ Wr1 TA G1) as (j & Mj & Pj & Dj & Tj).
+    fold (d_rmap c) in Mj. fold (d_rl2 c) in Dj, Tj. rewrite Mj.
+    assert (L2 : j <=? 0 = false) by (apply Z.leb_gt; lia).
+    rewrite (lib_type_same _ _ id LT) in Tj.
+    unfold dec_rf. rewrite L2, Er, Dj, Tj. cbn [opt_bind]. cbv zeta. subst d.
+    destruct (KI a m1 m2 m3 rest) as (a' & s1' & s2' & s3' & rest' & EK & K1 & K2 & K3). rewrite EK.
+    change (knth (a' :: s1' :: s2' :: s3' :: rest') 1) with s1'. change (knth (a' :: s1' :: s2' :: s3' :: rest') 2) with s2'.
+    change (knth (a' :: s1' :: s2' :: s3' :: rest') 3) with s3'. rewrite K1, K2, K3. rewrite <- EK.
+    change (knth (a :: s1 :: s2 :: s3 :: rest) 1) with s1 in D. change (knth (a :: s1 :: s2 :: s3 :: rest) 2) with s2 in D.
+    change (knth (a :: s1 :: s2 :: s3 :: rest) 3) with s3 in D.
+    destruct (get_shape c (qz s1)) as [mag|] eqn:S1; cbn [opt_bind] in D; [|discriminate].
+    destruct (get_shape c (qz s2)) as [ph|] eqn:S2; cbn [opt_bind] in D; [|discriminate].
+    destruct (shape_after c c' _ _ _ Ws Es R1 S1) as (S1' & _ & _). destruct (shape_after c c' _ _ _ Ws Es R2 S2) as (S2' & _ & _).
+    rewrite S1', S2'. cbn [opt_bind].
+    assert (RM : rm_rf c (a :: s1 :: s2 :: s3 :: rest) = a :: zq m1 :: zq m2 :: zq m3 :: rest).
+    { unfold rm_rf. rewrite E2. reflexivity. }
+    destruct R3 as [[Z3 ->]|(k3 & G3 & D3 & P3 & Pm3)].
+    + rewrite Z3 in D. cbn in D. inversion D. cbn [option_map]. unfold rd_rf. cbn [map]. rewrite RM. reflexivity.
+    + assert (N3 : 0 <? qz s3 = true) by (apply Z.ltb_lt; lia). assert (N3' : 0 <? m3 = true) by (apply Z.ltb_lt; lia).
+      rewrite N3 in D. rewrite N3'. unfold get_shape in D |- *. rewrite G3 in D. cbn [opt_bind] in D. inversion D.
+      rewrite Es, D3. cbn [opt_bind option_map]. unfold rd_rf. cbn [map]. rewrite RM. reflexivity.
+Qed.
+
+Lemma dec_ext_cong2 c c' :
+  trig_l c' = trig_l c -> lset_l c' = lset_l c -> linc_l c' = linc_l c -> ext_l c' = ext_l c ->
+  ext_num c' = ext_num c -> ext_str c' = ext_str c ->
+  forall f eid, dec_ext c' f eid = dec_ext c f eid.
+Proof.
+  intros H4 H5 H6 H7 H9 H10.
+  induction f as [|f IH]; intro eid; rewrite (dec_ext_unfold c), (dec_ext_unfold c').
+  - reflexivity.
+  - destruct (eid =? 0); [reflexivity|].
+    unfold ext_type_str. rewrite H4, H5, H6, H7, H9, H10.
+    apply opt_bind_ext; intro ed. apply opt_bind_ext; intro s0. cbv zeta.
+    apply opt_bind_ext; intro p. rewrite IH. reflexivity.
+Qed.
+
+(* the result of remove_duplicates *)
+Definition d_core c (b3 : list (Z * list Z)) : core :=
+  c <| shape_l := d_sl c |> <| grad_l := d_gl2 c |> <| rf_l := d_rl2 c |> <| adc_l := d_al2 c |> <| blocks := b3 |>.
+
+Theorem dedup_decodes_rounded c : StoreWf c -> RefsExist c -> KeepIds2 -> KeepIds3 -> TagsAgree c ->
+  exists c', dedup_core r1 r2 r3 r4 c = Some c' /\
+    akeys (blocks c') = akeys (blocks c) /\ durs c' = durs c /\
+    forall i b, decode c i = Some b -> decode c' i = Some (round_dblock c b).
+Proof.
+  intros W R K2 K3 [TA2 TA3]. destruct (dedup_core_spec c W R) as (b3 & E & F).
+  fold (d_core c b3) in E. exists (d_core c b3). split; [exact E|].
+  destruct (blk_rel_aget (ev_fin c) _ _ F) as [Kb Gb].
+  split; [exact Kb|]. split; [reflexivity|].
+  intros i b H. unfold decode in H.
+  destruct (aget Z.eqb (blocks c) i) as [ev|] eqn:Eev; cbn [opt_bind] in H; [|discriminate].
+  destruct (dec_rf c (nth 1 ev 0)) as [rf|] eqn:Erf; cbn [opt_bind] in H; [|discriminate].
+  destruct (dec_grad c (nth 2 ev 0)) as [gx|] eqn:Egx; cbn [opt_bind] in H; [|discriminate].
+  destruct (dec_grad c (nth 3 ev 0)) as [gy|] eqn:Egy; cbn [opt_bind] in H; [|discriminate].
+  destruct (dec_grad c (nth 4 ev 0)) as [gz|] eqn:Egz; cbn [opt_bind] in H; [|discriminate].
+  destruct (dec_adc c (nth 5 ev 0)) as [adc|] eqn:Eadc; cbn [opt_bind] in H; [|discriminate].
+  destruct (if 0 <? nth 6 ev 0 then dec_ext c (S (length (ldata (ext_l c)))) (nth 6 ev 0) else Some []) as [ext|] eqn:Eext;
+    cbn [opt_bind] in H; [|discriminate].
+  destruct (aget Z.eqb (durs c) i) as [d|] eqn:Ed; cbn [opt_bind] in H; [|discriminate].
+  inversion H. subst b. clear H.
+  destruct (Gb i ev Eev) as (ev3 & Eev3 & Rv).
+  pose proof R as (_ & _ & Rb). rewrite Forall_forall in Rb.
+  destruct (Rb _ (agetZ_In _ _ _ Eev)) as (H1 & H2 & H3 & H4 & H5). cbn [snd] in *.
+  unfold decode. change (blocks (d_core c b3)) with b3. rewrite Eev3. cbn [opt_bind].
+  rewrite (Rv 1%nat), (Rv 2%nat), (Rv 3%nat), (Rv 4%nat), (Rv 5%nat), (Rv 6%nat). cbn [colmap].
+  rewrite (dec_rf_dedup c (d_core c b3) _ _ W R K3 TA3 eq_refl eq_refl H1 Erf). cbn [opt_bind].
+  rewrite (dec_grad_dedup c (d_core c b3) _ _ W R K2 TA2 eq_refl eq_refl H2 Egx). cbn [opt_bind].
+  rewrite (dec_grad_dedup c (d_core c b3) _ _ W R K2 TA2 eq_refl eq_refl H3 Egy). cbn [opt_bind].
+  rewrite (dec_grad_dedup c (d_core c b3) _ _ W R K2 TA2 eq_refl eq_refl H4 Egz). cbn [opt_bind].
+  rewrite (dec_adc_dedup c (d_core c b3) _ _ W eq_refl H5 Eadc). cbn [opt_bind].
+  change (ext_l (d_core c b3)) with (ext_l c).
+  rewrite (dec_ext_cong2 c (d_core c b3) eq_refl eq_refl eq_refl eq_refl eq_refl eq_refl).
+  rewrite Eext. cbn [opt_bind]. change (durs (d_core c b3)) with (durs c). rewrite Ed. reflexivity.
+Qed.
+
+(* ---- references stay valid --------------------------------------------------------------------------------- *)
+Lemma has_mapped (rnd : key -> key) (l : klib) z : lib_wf l -> has l z ->
+  has (fst (lrd rnd l)) (mapval (snd (lrd rnd l)) z).
+Proof.
+  intros W H. destruct (map_has rnd l z W H) as (m & M & [[_ ->]|(k & _ & D & _)]); unfold mapval; rewrite M.
+  - left. reflexivity.
+  - right. congruence.
+Qed.
+
+Lemma smap_rel_has c z m : smap_rel c z m -> has (d_sl c) m.
+Proof. intros [[_ ->]|(k & _ & D & _)]; [left; reflexivity|right; congruence]. Qed.
+
+Theorem dedup_refs_exist c : StoreWf c -> RefsExist c -> KeepIds2 -> KeepIds3 ->
+  exists c', dedup_core r1 r2 r3 r4 c = Some c' /\ StoreWf c' /\ RefsExist c'.
+Proof.
+  intros W R K2 K3. destruct (dedup_core_spec c W R) as (b3 & E & F).
+  fold (d_core c b3) in E. exists (d_core c b3). split; [exact E|].
+  pose proof W as (Ws & Wg & Wr & Wa). pose proof (gl1_wf c W R) as Wg1. pose proof (rl1_wf c W R) as Wr1.
+  assert (W' : StoreWf (d_core c b3)).
+  { repeat split; apply lrd_wf; assumption. }
+  split; [exact W'|]. destruct W' as (Ws' & Wg' & Wr' & Wa').
+  change (shape_l (d_core c b3)) with (d_sl c) in *. change (grad_l (d_core c b3)) with (d_gl2 c) in *.
+  change (rf_l (d_core c b3)) with (d_rl2 c) in *. change (adc_l (d_core c b3)) with (d_al2 c) in *.
+  destruct (gl1_spec c W R) as (_ & _ & LTg & Ng & Gg). destruct (rl1_spec c W R) as (_ & _ & LTr & Nr & Gr).
+  split; [|split]; apply Forall_forall.
+  - intros [j k'] H. unfold grad_row_ok. cbn [fst snd].
+    change (shape_l (d_core c b3)) with (d_sl c). change (grad_l (d_core c b3)) with (d_gl2 c).
+    apply (proj2 (proj2 (wf_rows _ Wg'))) in H.
+    destruct (dedup_onto key key_eqb key_eqb_spec r2 (d_gl1 c) (proj1 Wg1) j k' H) as (i0 & k0 & [G0 _] & _ & -> & Ty).
+    fold (d_gl2 c) in Ty. rewrite (lib_wf_tag _ i0 Wg1), (lib_type_same _ _ i0 LTg) in Ty.
+    destruct (lib_get (grad_l c) i0) as [d0|] eqn:E0; [|rewrite (Ng i0 E0) in G0; discriminate].
+    destruct (Gg i0 d0 E0) as [[T1 _]|(T1 & a & s1 & s2 & rest & m1 & m2 & _ & _ & G1 & R1 & R2)].
+    + left. congruence.
+    + right. split; [congruence|]. rewrite G1 in G0. inversion G0. subst k0.
+      destruct (K2 a m1 m2 rest) as (a' & s1' & s2' & rest' & EK & Q1 & Q2).
+      exists a', s1', s2', rest'. split; [exact EK|]. rewrite Q1, Q2. split; eapply smap_rel_has; eassumption.
+  - intros [j k'] H. unfold rf_row_ok. cbn [fst snd].
+    change (shape_l (d_core c b3)) with (d_sl c).
+    apply (proj2 (proj2 (wf_rows _ Wr'))) in H.
+    destruct (dedup_onto key key_eqb key_eqb_spec r3 (d_rl1 c) (proj1 Wr1) j k' H) as (i0 & k0 & [G0 _] & _ & -> & _).
+    destruct (lib_get (rf_l c) i0) as [d0|] eqn:E0; [|rewrite (Nr i0 E0) in G0; discriminate].
+    destruct (Gr i0 d0 E0) as (a & s1 & s2 & s3 & rest & m1 & m2 & m3 & _ & _ & G1 & R1 & R2 & R3).
+    rewrite G1 in G0. inversion G0. subst k0.
+    destruct (K3 a m1 m2 m3 rest) as (a' & s1' & s2' & s3' & rest' & EK & Q1 & Q2 & Q3).
+    exists a', s1', s2', s3', rest'. split; [exact EK|]. rewrite Q1, Q2, Q3.
+    repeat split; eapply smap_rel_has; eassumption.
+  - intros [b ev3] H. change (blocks (d_core c b3)) with b3 in H.
+    destruct (Forall2_In_l _ _ _ _ F H) as ([b' ev] & Hev & _ & Rv). cbn [fst snd] in Rv.
+    pose proof R as (_ & _ & Rb). rewrite Forall_forall in Rb. destruct (Rb _ Hev) as (H1 & H2 & H3 & H4 & H5). cbn [snd] in *.
+    unfold blk_ok. cbn [snd].
+    change (rf_l (d_core c b3)) with (d_rl2 c). change (grad_l (d_core c b3)) with (d_gl2 c).
+    change (adc_l (d_core c b3)) with (d_al2 c).
+    rewrite (Rv 1%nat), (Rv 2%nat), (Rv 3%nat), (Rv 4%nat), (Rv 5%nat). cbn [colmap].
+    repeat split.
+    + apply has_mapped; [exact Wr1|apply has_rl1; assumption].
+    + apply has_mapped; [exact Wg1|apply has_gl1; assumption].
+    + apply has_mapped; [exact Wg1|apply has_gl1; assumption].
+    + apply has_mapped; [exact Wg1|apply has_gl1; assumption].
+    + apply has_mapped; assumption.
+Qed.
+End SeqDedup.
